@@ -406,11 +406,30 @@ func (c *apiCtx) messageStructure(s *glue.Subject) {
 	if m.Type().Zero().IsValid() {
 		c.bad("type/zero-valid", tn, "Type().Zero() is a valid (mutable) message")
 	}
+	// imports of the registered file resolve to the registered files, not to placeholders
+	imps := d.ParentFile().Imports()
+	for i := 0; i < imps.Len(); i++ {
+		imp := imps.Get(i)
+		if rf, err := protoregistry.GlobalFiles.FindFileByPath(imp.Path()); err == nil && (imp.IsPlaceholder() || imp.FileDescriptor != rf) {
+			c.bad("registry/import-is-placeholder", tn, fmt.Sprintf("file %s: import %s is registered, but the file's import entry is a placeholder / another descriptor (placeholder=%v)", d.ParentFile().Path(), imp.Path(), imp.IsPlaceholder()))
+		}
+	}
 	// struct fields vs descriptor fields
 	st := reflect.TypeOf(s.Zero).Elem()
 	fs := d.Fields()
 	for i := 0; i < fs.Len(); i++ {
 		fd := fs.Get(i)
+		// the type a field refers to is the registered descriptor itself
+		for _, ref := range []protoreflect.Descriptor{fd.Message(), fd.Enum(), mapValueMessage(fd), mapValueEnum(fd)} {
+			if ref == nil || reflect.ValueOf(ref).IsNil() {
+				continue
+			}
+			reg, err := protoregistry.GlobalFiles.FindDescriptorByName(ref.FullName())
+			if ref.IsPlaceholder() || (err == nil && reg != ref) {
+				c.bad("registry/field-type-not-the-registered-descriptor", tn, fmt.Sprintf("field %s refers to %s through a placeholder / another descriptor object (placeholder=%v, registered=%v)", fd.Name(), ref.FullName(), ref.IsPlaceholder(), err == nil))
+			}
+			c.rep.Count("C19", "field-type-references-checked", 1)
+		}
 		var sf reflect.StructField
 		var ft reflect.Type
 		if inOneof(fd) {
@@ -772,4 +791,18 @@ func engineAPI(rep *Report) {
 			guardCase(rep, "C19", "api", string(s.FullName), i, func() { c.valueAPI(s, i) })
 		}
 	}
+}
+
+func mapValueMessage(fd FD) protoreflect.Descriptor {
+	if fd.IsMap() && fd.MapValue().Message() != nil {
+		return fd.MapValue().Message()
+	}
+	return nil
+}
+
+func mapValueEnum(fd FD) protoreflect.Descriptor {
+	if fd.IsMap() && fd.MapValue().Enum() != nil {
+		return fd.MapValue().Enum()
+	}
+	return nil
 }
